@@ -7,6 +7,11 @@
 //!        UA <naddrs> <ops>             UdpMetricSink::from(&[SocketAddr][..]) with 0, 1 or 2 addresses
 //!        ST <threads> <updates>        SocketStats::update hammered from several threads
 //!        UC <threads> <emits>          one UdpMetricSink shared by several emitting threads
+//!        SU <updates>                  SocketStats::update called with explicit results: comma list of
+//!                                      k<written>/<len> (Ok(written)) | e<kind>/<len> (Err of io::ErrorKind number <kind>)
+//!        XW <u|cap> <emits> <len>      Unix sink (u = unbuffered, else buffered with that capacity) on a NON-BLOCKING socket
+//!                                      whose listener never reads during the case: sends fail with WouldBlock once the
+//!                                      listener's queue is full.  Observation has |A:<underlying send attempts> (hook H2)
 //!   ops = comma list of E<hex> (emit) | F (flush) | l (listener down: Unix only) | L (listener up again)
 //! observation:  R:<per op: k<n> | e | - >|D:<datagrams received, hex, in order>|S:<bytes_sent>.<packets_sent>.<bytes_dropped>.<packets_dropped>
 //!   (stats are read after the last op and before the sink is dropped; for q1 through the queuing sink)
@@ -203,6 +208,37 @@ fn unix_pair(nonblocking: bool) -> (UnixDatagram, UnixDatagram, PathBuf) {
     (recv, send, p)
 }
 
+const KINDS: [std::io::ErrorKind; 20] = [
+    std::io::ErrorKind::NotFound,
+    std::io::ErrorKind::PermissionDenied,
+    std::io::ErrorKind::ConnectionRefused,
+    std::io::ErrorKind::ConnectionReset,
+    std::io::ErrorKind::ConnectionAborted,
+    std::io::ErrorKind::NotConnected,
+    std::io::ErrorKind::AddrInUse,
+    std::io::ErrorKind::AddrNotAvailable,
+    std::io::ErrorKind::BrokenPipe,
+    std::io::ErrorKind::AlreadyExists,
+    std::io::ErrorKind::WouldBlock,
+    std::io::ErrorKind::InvalidInput,
+    std::io::ErrorKind::InvalidData,
+    std::io::ErrorKind::TimedOut,
+    std::io::ErrorKind::WriteZero,
+    std::io::ErrorKind::Interrupted,
+    std::io::ErrorKind::Unsupported,
+    std::io::ErrorKind::UnexpectedEof,
+    std::io::ErrorKind::OutOfMemory,
+    std::io::ErrorKind::Other,
+];
+
+fn kind_of(n: usize) -> std::io::ErrorKind {
+    KINDS[n % KINDS.len()]
+}
+
+fn kind_no(k: std::io::ErrorKind) -> usize {
+    KINDS.iter().position(|x| *x == k).unwrap_or(99)
+}
+
 fn cap_of(s: &str) -> Option<usize> {
     if s == "d" {
         None
@@ -291,6 +327,65 @@ pub fn run_case(line: &str) -> String {
                 }
             }
             format!("S:{}|W:{}.{}.{}.{}", stats_str(&got), bs, ps, bd, pd)
+        }
+        "SU" => {
+            let stats = SocketStats::default();
+            let mut res = vec![];
+            for u in t[1].split(',') {
+                let (r, len) = u.split_once('/').unwrap();
+                let len: usize = len.parse().unwrap();
+                let arg: std::io::Result<usize> = if let Some(w) = r.strip_prefix('k') {
+                    Ok(w.parse().unwrap())
+                } else {
+                    Err(std::io::Error::from(kind_of(r[1..].parse().unwrap())))
+                };
+                res.push(match stats.update(arg, len) {
+                    Ok(n) => format!("k{}", n),
+                    Err(e) => format!("e{}", kind_no(e.kind())),
+                });
+            }
+            let got: SinkStats = (&stats).into();
+            format!("R:{}|S:{}", res.join(","), stats_str(&got))
+        }
+        "XW" => {
+            let n: usize = t[2].parse().unwrap();
+            let len: usize = t[3].parse().unwrap();
+            let (recv, send, p) = unix_pair(true);
+            let attempts = Arc::new(AtomicU64::new(0));
+            let a2 = attempts.clone();
+            cadence::verif::install(Arc::new(move |site| {
+                if site == "sink.write" {
+                    a2.fetch_add(1, Ordering::SeqCst);
+                }
+            }));
+            let sink: Box<dyn MetricSink + Send + Sync + RefUnwindSafe> = if t[1] == "u" {
+                Box::new(UnixMetricSink::from(&p, send))
+            } else {
+                Box::new(BufferedUnixMetricSink::with_capacity(&p, send, t[1].parse().unwrap()))
+            };
+            let mut res = vec![];
+            for i in 0..n {
+                let m = format!("w{}.{}", i, "x".repeat(len.saturating_sub(3 + i.to_string().len())));
+                res.push(match sink.emit(&m) {
+                    Ok(k) => format!("k{}", k),
+                    Err(e) => format!("e{}", kind_no(e.kind())),
+                });
+            }
+            let unbuffered_attempts = n as u64;
+            let st = sink.stats();
+            let att = if t[1] == "u" { unbuffered_attempts } else { attempts.load(Ordering::SeqCst) };
+            std::mem::forget(sink);     // no drop-time flush: the figures were read above
+            cadence::verif::uninstall();
+            let mut got = vec![];
+            Recv::Unix(Some(recv), p.clone()).drain(&mut got, 20);
+            let _ = std::fs::remove_file(&p);
+            format!(
+                "R:{}|D:{}|S:{}|A:{}",
+                res.join(","),
+                got.iter().map(|d| hex(d)).collect::<Vec<_>>().join(";"),
+                stats_str(&st),
+                att
+            )
         }
         "UC" => {
             let threads: usize = t[1].parse().unwrap();
